@@ -293,6 +293,10 @@ func runOnce(c Case) (res vh.Result) {
 			}
 			switch t.Kind {
 			case "reply", "dup":
+				// either copy of a duplicated reply is this target's own reply (replies are delivered in their own goroutines and may overtake each other)
+				if t.Kind == "dup" && tok == token(i, j)+"-dup" && tr.Err() == nil {
+					break
+				}
 				if tok != token(i, j) || tr.Err() != nil {
 					res.Violation = fmt.Sprintf("command %d target %s replied %q without error but the result holds state %q err %v", i, mkTarget(t.Task).TaskId.Value, token(i, j), tok, tr.Err())
 					res.Signature = "own-reply-lost:" + t.Kind
